@@ -212,8 +212,8 @@ func checkC13(tier string) int {
 			m := mon.NewC13()
 			return wrapStateful(m.OnBlock)
 		},
-		gates:    map[string]int{"ok:WITHDRAW_REWARD": 1},
-		nontriv:  func(blk *hist.Block) bool { return mon.RewardEvent(blk) != "" },
+		gates:   map[string]int{"ok:WITHDRAW_REWARD": 1},
+		nontriv: func(blk *hist.Block) bool { return mon.RewardEvent(blk) != "" },
 		tune: func(cfg *drive.Cfg, i int) {
 			// the boxes record, before every BeginBlock, what a freshly started node would pull
 			cfg.Envs = [][]string{{"OLBOX_TWINPULL=1"}, {"OLBOX_TWINPULL=1"}}
@@ -291,6 +291,11 @@ func checkC17(tier string) int {
 			cfg.Honest = false // pre-check failures reach a block only through a byzantine proposer
 			if i%2 == 0 {
 				cfg.Scripts = []string{"olvm-one", "transfers"}
+			}
+			if i%4 == 3 {
+				// blocks made only of plain EVM transfers and native transfers touching the same accounts:
+				// every account's delta is predicted exactly
+				cfg.Scripts = []string{"olvm-mixed"}
 			}
 		},
 		newMon: func(w *world.World) func(run *hist.Runner, blk *hist.Block) []mon.Finding {
